@@ -28,10 +28,16 @@ Single == UNION {
                z \in BOOLEAN, p \in Positions(n), k \in PhKinds} : n \in Sizes}
 
 \* two bad entries: same chunk / different chunks / chunk + remainder
-PairKinds == {"wrongMsg", "SplusL", "truncSig", "smallA", "flipS"}
+PairKinds == {"wrongMsg", "SplusL", "truncSig", "smallA", "smallR", "flipS", "nilKey"}
 Double == UNION {
-            {[n |-> n, variant |-> v, zip |-> FALSE, entropy |-> "random", bad |-> {<<p1, k1>>, <<p2, k2>>}] :
-               v \in {"pure", "ph"}, p1 \in Positions(n), p2 \in Positions(n), k1 \in PairKinds, k2 \in PairKinds} : n \in {4, 5, 65, 68, 130}}
+            {[n |-> n, variant |-> v, zip |-> z, entropy |-> "random", bad |-> {<<p1, k1>>, <<p2, k2>>}] :
+               v \in {"pure", "ph"}, z \in BOOLEAN, p1 \in Positions(n), p2 \in Positions(n), k1 \in PairKinds, k2 \in PairKinds} : n \in {4, 5, 65, 68, 130}}
+
+\* entropy sources that deliver their bytes in small pieces (legal io.Readers): io.ReadFull must assemble them
+Chunky == UNION {
+            {[n |-> n, variant |-> "pure", zip |-> z, entropy |-> e, bad |-> {<<p, k>>}] :
+               z \in BOOLEAN, e \in {"piece1", "piece7", "piece100"}, p \in Positions(n), k \in {"wrongMsg", "flipS", "SplusLbad"}} : n \in {4, 5, 9, 64, 68}}
+          \cup {[n |-> n, variant |-> "ctx", zip |-> FALSE, entropy |-> e, bad |-> {}] : n \in {4, 7, 64, 65, 130}, e \in {"piece1", "piece7", "piece100"}}
 
 AllValid == {[n |-> n, variant |-> v, zip |-> z, entropy |-> e, bad |-> {}] :
                n \in (0..70) \cup (126..132) \cup {191, 192, 193, 200, 256, 257}, v \in Variants, z \in BOOLEAN, e \in {"random", "zero", "ones"}}
@@ -42,7 +48,7 @@ Errors == {[n |-> n, variant |-> "pure", zip |-> FALSE, entropy |-> e, bad |-> {
           \cup {[n |-> n, variant |-> v, zip |-> FALSE, entropy |-> "random", bad |-> {}] :
              n \in {0, 1, 3, 4, 5, 65}, v \in {"badhash", "longctx", "countKeys", "countMsgs", "countSigs", "ctx255", "ctx256"}}
 
-Cases == Single \cup Double \cup AllValid \cup Errors
+Cases == Single \cup Double \cup Chunky \cup AllValid \cup Errors
 
 ToRec(c) == [n |-> c.n, variant |-> c.variant, zip |-> c.zip, entropy |-> c.entropy,
              bad |-> SetToSeq({[pos |-> b[1], kind |-> b[2]] : b \in c.bad})]
